@@ -139,6 +139,8 @@ def dist_to_polylines(Q, polys):
 def check(segs, closed, mjs, tight, case, acc):
     p = Path(*segs)
     n = len(segs)
+    if not closed and n > 1 and segs[-1].end == segs[0].start:
+        closed = True       # a turtle walk that returns exactly to its start IS a closed path
     joint_idx = list(range(1, n)) + ([0] if closed else [])
     in_kinks = []
     for j in joint_idx:
